@@ -11,7 +11,7 @@ from ..worlds.mailbox import World
 
 ID = "C18"
 MODEL = "CLIENT"
-PROP_MODULES = ["WV.Props.C18", "WV.Props.C18obs"]
+PROP_MODULES = ["WV.Props.ClientSkel", "WV.Props.C18", "WV.Props.C18obs"]
 NATIVE_DECIDE_MODULES = ["WV.Proofs.ClientCert"]
 TRUSTED = c14.TRUSTED + ["Deferred chaining of Twisted (observers' callbacks run through the real EventualQueue)"]
 RULE = ("(a) guided random schedules as for C14 with per-step comparison against the Lean model; (b) two-client runs "
